@@ -11,7 +11,7 @@ import (
 
 func init() {
 	register(&Property{
-		ID: "C15",
+		ID:          "C15",
 		Explanation: "Decided for all paths (every crash point is a program point between two of these calls): FileSnapshotSink.Close is idempotent and performs finalize (flush, fsync unless noSync, close state file, record size and CRC of the very hash that saw every written byte) ≺ writeMeta (encode, flush, fsync) ≺ rename of the .tmp directory to its final name ≺ fsync of the parent directory ≺ reaping, each step only after the previous one returned nil, a failed finalize removing the temporary directory; nil is returned only after the rename; Create hands out a buffered writer over io.MultiWriter(state file, hash) into a directory whose name ends in .tmp; getSnapshots lists only directories that are not .tmp, whose metadata decodes and has a supported version, sorted by sort.Reverse of a Less that is ascending lexicographic on (Term, Index, ID) for all 27 orderings; List stops at the retain count; ReapSnapshots removes only entries from position retain onwards of that order; Open returns a reader only after the stored CRC equals the checksum of the whole state file read from the same handle and a successful Seek(0,0), closing the handle on every error path; Cancel finalizes then removes the temporary directory.",
 		NotDecided:  "what the operating system persists for a directory entry without an fsync of the containing directory (the snapshot directory itself is never fsynced before the rename – recorded as an assumption), byte-identity of contents beyond the CRC, and behaviour on Windows (the parent fsync is compiled out there).",
 		Assumptions: []string{"os.Rename of a directory is atomic; fsync on a file/directory makes it and its entries durable", "CRC-64 equality is taken as content equality"},
